@@ -489,6 +489,8 @@ def check_run(proj: dict, inv: dict, evs: T.Sequence[dict], testlog: T.Optional[
             if res == 'INTERRUPT':
                 if inv['maxfail'] > 0 and bad_started >= inv['maxfail']:
                     cnt('cov:result_INTERRUPT')
+                    if exit_of(t, it) != 0 or t['should_fail'] or t['protocol'] == 'tap':
+                        cnt('cov:interrupted_in_flight_test_not_plain_exit0')
                     if run is not None and run['ended'] and not victim:
                         cnt('diag:interrupt_after_END')
                 else:
